@@ -7,7 +7,7 @@ BIN = '/verif/build/target/debug/c09'
 def parse(line):
     return [[] if t == '_' else [int(x, 16) for x in t.split(',')] for t in line.split(' ')]
 curves = {}
-ids = [0, 1, 2, 3, 4, 5, 6, 7, 8, 9, 10, 11, 20, 21, 22, 23, 24, 25, 26, 27, 28, 29]
+ids = [0, 1, 2, 3, 4, 5, 6, 7, 8, 9, 10, 11, 12, 13, 14, 15, 16, 17, 20, 21, 22, 23, 24, 25, 26, 27, 28, 29, 30, 31, 32, 33]
 out = subprocess.run([BIN], input=''.join('0:dump %x\n' % i for i in ids), capture_output=True, text=True).stdout.splitlines()
 for i, l in zip(ids, out):
     r = parse(l)
@@ -18,6 +18,10 @@ fields = {}
 towers = {0: [1], 1: [1], 2: [1], 3: [1], 4: [1], 5: [1], 6: [1], 7: [1], 8: [1], 9: [1], 10: [1], 11: [1, 2, 6, 12],
           12: [1, 3], 13: [1, 2, 6, 12], 14: [1, 2, 4], 15: [1], 16: [1], 17: [1], 18: [1, 3, 32], 19: [1], 20: [1],
           21: [1], 22: [1], 23: [1], 24: [1], 25: [1], 26: [1]}
+# towers defined in c09.rs over base fields whose top byte cannot hold the flags (constants: mkext.py)
+for i, ts in {0: [2, 6], 1: [2], 2: [2, 3, 4, 6, 32], 5: [2, 3], 6: [2, 4, 6], 7: [2, 3], 8: [2, 3, 4, 32], 9: [2, 3, 4],
+              10: [2, 3, 6], 15: [2], 16: [2], 17: [2, 6], 23: [2], 25: [2], 26: [2]}.items():
+    towers[i] = towers[i] + ts
 lines, keys = [], []
 for i, ts in towers.items():
     for t in ts:
